@@ -129,9 +129,11 @@ CLAIMS = {
                 "differentiated spectra; per-term statement 'output on every retained mode = linear (alias-free) convolution form "
                 "of the documented operator on the truncated state, 0 on every dropped mode' in EVERY dimension for: polynomial "
                 "(degree<=2 with 2/3, degree<=3 with 1/2), conservative and non-conservative convection (multi- and single-channel), "
-                "gradient norm (both zero-mode options), Cahn-Hilliard, Gray-Scott, and the 2-D vorticity term; zero outside the band "
-                "for all terms in every dimension; regenerated cross product = documented formula. Not proved in Lean: the per-term "
-                "statement for the 3-D rotational term and Belousov-Zhabotinsky (correspondence + 4x-oversampled oracle). "
+                "gradient norm (both zero-mode options), the general nonlinear term, Cahn-Hilliard, Gray-Scott, "
+                "Belousov-Zhabotinsky, the 2-D vorticity term and the 3-D rotational term P(u x curl u) built on the regenerated cross "
+                "product — i.e. every nonlinear function of the library; zero outside the band for all terms in every dimension; "
+                "regenerated cross product = documented formula. Multi-channel gradient-norm / general variants are tied by the "
+                "correspondence and the 4x-oversampled oracle. "
                 "Correspondence: masks exactly for a contiguous N range (all residues mod 12), every nonlinear-function class vs the "
                 "model, D=1..3.",
         "technique": "Lean 4 proof (DFT convolution/aliasing theory on the model pipeline) + model/implementation correspondence",
